@@ -127,6 +127,45 @@ Proof.
   destruct (add_to_store s2 NsSeq sq) as [[s3 si]|]; reflexivity.
 Qed.
 
+(* ---- T1, the rest of results_store.py ---------------------------------- *)
+(* ResultStoreParallel.__init__: base initialiser, then the pointer and the
+   four dicts become manager objects, no local store yet *)
+Theorem C15_rsp_init_tree : tk_rsp_init = expected_rsp_init.
+Proof. vm_compute. reflexivity. Qed.
+
+(* ResultStoreParallel.add only delegates to the worker-local store *)
+Theorem C15_rsp_add_tree : tk_rsp_add = expected_rsp_add.
+Proof. vm_compute. reflexivity. Qed.
+
+(* ResultStoreParallel._allocate_next = the base function under the lock *)
+Theorem C15_rsp_allocate_next_tree :
+  tk_rsp_allocate_next = expected_rsp_allocate_next.
+Proof. vm_compute. reflexivity. Qed.
+
+(* ResultStoreBase.sync does nothing *)
+Theorem C15_base_sync_is_noop : tk_base_sync = [].
+Proof. vm_compute. reflexivity. Qed.
+
+(* sync only READS the worker-local tables (Model.Store.sync leaves the
+   local store untouched: add .. sync .. add .. sync histories) *)
+Theorem C15_sync_reads_local_only : tk_sync_local = expected_sync_local.
+Proof. vm_compute. reflexivity. Qed.
+
+(* ResultStoreParallel.local: a new store (built from self.preallocate and
+   the block size) for a process that has none, the own store for its
+   creator, ResultStoreException for every other process - so a local store
+   (and its current block) is only ever used by ONE process, which is what
+   the per-store theorems below and the per-task model of C06 assume *)
+Theorem C15_local_shape : no_reads_list tk_rsp_local = expected_rsp_local.
+Proof. vm_compute. reflexivity. Qed.
+
+Theorem C15_local_is_tree : forall owner pid,
+  run_local tk_rsp_local owner pid = Some (local_model owner pid).
+Proof.
+  intros [o|] pid; unfold local_model; [|vm_compute; reflexivity].
+  cbv -[Z.eqb]. destruct (o =? pid); reflexivity.
+Qed.
+
 (* plain store (ResultStoreSimple without preallocator): every history
    succeeds, refines the table with slot k = k (so a new value gets index
    |data|), and is an injective table *)
@@ -229,6 +268,8 @@ Print Assumptions C15_allocations_is_tree.
 Print Assumptions C15_allocate_next_is_tree.
 Print Assumptions C15_add_to_store_is_tree.
 Print Assumptions C15_add_is_tree.
+Print Assumptions C15_local_is_tree.
+Print Assumptions C15_sync_reads_local_only.
 Print Assumptions C15_plain_store.
 Print Assumptions C15_prealloc_store.
 Print Assumptions C15_index_stable_forever_plain.
